@@ -243,6 +243,12 @@ partial def loop (h : IO.FS.Stream) (d : DS) : IO Unit := do
       IO.println "ok"
       loop h { mode, maxwb := mw.toNat!, stopped := false, listen := ln == "1" }
     else bad
+  | ["C", mode, np, mw, ln, _async] =>
+    -- AsyncReadInPoller: who reads (poller or read task) is not part of the lifecycle; every op ends quiescent
+    if (mode == "lt" || mode == "et" || mode == "os") && np.toNat! > 0 then
+      IO.println "ok"
+      loop h { mode, maxwb := mw.toNat!, stopped := false, listen := ln == "1" }
+    else bad
   | _ =>
     if d.stopped then bad else
     match ws with
@@ -292,6 +298,16 @@ partial def loop (h : IO.FS.Stream) (d : DS) : IO Unit := do
         | some e => if e.c.wT then settle (stepE d id .timerW) id else d
         | none => d
       say d "dialrace" "nil" (some id)
+    | ["hupbusy", id, _, _] =>
+      -- data, then more data + the peer's FIN + IN|RDHUP (with AsyncReadInPoller: while the read task is still busy):
+      -- everything is read, then the conn is closed with EOF
+      match d.get id.toNat! with
+      | some e =>
+        if e.c.kind != .add then bad else
+        if !e.c.inTable then say d "hupbusy" "gone" (some e.id) else
+        let d := d.put { e with rq := 0, eof := true, rerr := false }
+        say (closeE d e.id .eof) "hupbusy" "nil" (some e.id)
+      | none => bad
     | ["dgram", id, port, _] =>
       match d.get id.toNat! with
       | some e => if e.c.kind != .udp then bad else say (d.put { e with dq := e.dq ++ [port.toNat!] }) "dgram" "nil" (some e.id)
